@@ -4,6 +4,7 @@ package corerad
 
 import (
 	"encoding/json"
+	"errors"
 	"fmt"
 	"net/http/httptest"
 	"os"
@@ -28,7 +29,7 @@ import (
 // path (initial, periodic, solicited, final, consistency check, scrape, API),
 // tracking flips between consecutive RAs.
 
-var c04Events = []string{"flip", "tick", "rs-uni", "rs-unspec", "ra-in"}
+var c04Events = []string{"flip", "tick", "rs-uni", "rs-unspec", "ra-in", "fwd-read-fails"}
 
 type c04Case struct {
 	Lifetime string   `json:"default_lifetime"` // "", "0s", "1234s"
@@ -42,7 +43,7 @@ func (c c04Case) String() string {
 }
 
 func c04Doc(c c04Case) ref.Doc {
-	s := ref.Table{"name": "eth0", "advertise": true, "max_interval": "4s", "min_interval": "auto", "mtu": 1500, "other_config": true}
+	s := ref.Table{"name": "eth0", "advertise": true, "max_interval": "4s", "min_interval": "auto", "mtu": 1500, "other_config": true, "preference": "high"}
 	if c.Lifetime != "" {
 		s["default_lifetime"] = c.Lifetime
 	}
@@ -178,6 +179,7 @@ func c04Run(t *testing.T, c c04Case) (x *vsched.Exec, out [][2]string) {
 					}
 				}
 			}
+			dead := false
 			x.Spawn("advertiser", a.run)
 			x.Spawn("driver", func() {
 				defer w.done()
@@ -201,6 +203,17 @@ func c04Run(t *testing.T, c c04Case) (x *vsched.Exec, out [][2]string) {
 					case "rs-unspec":
 						a.inject(rsFrom("::", false))
 						vsched.Sleep(3100 * time.Millisecond)
+					case "fwd-read-fails":
+						// From now on the forwarding sysctl cannot be read. Whatever the
+						// advertiser does then (it gives up), it must not advertise a non-zero
+						// lifetime while forwarding is off.
+						w.st.mu.Lock()
+						w.st.fwdErr = errors.New("verif: too many open files")
+						w.st.mu.Unlock()
+						vsched.Obs("fwd-read-fails", "")
+						a.inject(rsFrom("fe80::6", true))
+						vsched.Sleep(4 * time.Second)
+						dead = true
 					case "ra-in":
 						other := expectRA(true, false)
 						a.inject(inMsg{m: other, hop: 255, from: rsFrom("fe80::7", false).from})
@@ -210,9 +223,21 @@ func c04Run(t *testing.T, c c04Case) (x *vsched.Exec, out [][2]string) {
 						}
 					}
 					checkWrites(false, when)
+					if dead {
+						break
+					}
 					if c.Probe {
 						probe("after " + when)
 					}
+				}
+				if dead {
+					// The state became unreadable: the history ends here. No RA may have
+					// been sent with a lifetime the forwarding state forbids (checked above).
+					a.cancel()
+					vsched.Sleep(time.Second)
+					checkWrites(false, "after the read failure")
+					x.Finish()
+					return
 				}
 				probe("before stop")
 				a.term.set(os.Interrupt)
@@ -253,7 +278,7 @@ func c04Run(t *testing.T, c c04Case) (x *vsched.Exec, out [][2]string) {
 func TestVerifC04(t *testing.T) {
 	r := ev.Begin("C04", "histories")
 	defer r.End(t)
-	r.Rule = "histories = all sequences of <=K events over {flip forwarding, periodic tick, unicast RS, RS from ::, RA from another router} followed by termination, x default_lifetime {auto, 0s, 1234s} x initial forwarding {on, off} x {metrics+API probed after every event, only at the end}, on the real Advertiser.Run (min=max=4s, virtual clock, canonical schedule) with Metrics and the debug API handler built over the same config.Interface values plus a second advertising and a monitoring interface; oracle: every transmitted RA deep-equals the reference RA for the forwarding state at that moment (lifetime 0 when off, final RA 0), log line count = overridden generations, forwarding and misconfiguration gauges and API router_lifetime_seconds track the state per interface; non-trivial = history contains a flip or starts non-forwarding; distinct = distinct case"
+	r.Rule = "histories = all sequences of <=K events over {flip forwarding, periodic tick, unicast RS, RS from ::, RA from another router, forwarding sysctl becomes unreadable (ends the history)} followed by termination, x default_lifetime {auto, 0s, 1234s} x initial forwarding {on, off} x {metrics+API probed after every event, only at the end}, on the real Advertiser.Run (min=max=4s, virtual clock, canonical schedule) with Metrics and the debug API handler built over the same config.Interface values plus a second advertising and a monitoring interface; oracle: every transmitted RA deep-equals the reference RA for the forwarding state at that moment (lifetime 0 when off, final RA 0), log line count = overridden generations, forwarding and misconfiguration gauges and API router_lifetime_seconds track the state per interface; non-trivial = history contains a flip or starts non-forwarding; distinct = distinct case"
 	if r.Replay != nil {
 		var c c04Case
 		if err := json.Unmarshal(r.Replay, &c); err != nil {
